@@ -288,7 +288,10 @@ def _judge(mon, what, in_ops, out_ops, rules, W=None):
         fired = sum(1 for r_i in range(len(rules)) if _is_harness_rule(rules[r_i])
                     and any(_chain_fires(op, rules, r_i) for op in in_ops))
         chain_exact = len(rules) >= 2 and fired >= 2
-        mon.note("identity-preserved" if all(a is b for a, b in zip(out_ops, exp)) else "equal-not-identical")
+        if all(len(m) == 1 and m[0] is op for m, op in zip(models, in_ops)):
+            # nothing applied: are the untouched operations the very same objects?
+            mon.note("untouched:identical-objects" if all(a is b for a, b in zip(out_ops, exp))
+                     else "untouched:equal-copies")
     else:
         # untouched operations: kept, equal, in order (greedy subsequence match)
         pos = 0
@@ -324,9 +327,11 @@ def _judge(mon, what, in_ops, out_ops, rules, W=None):
             mon.out_of_domain("width")
             continue
         Ua, Ub = _seq_unitary(a, width, sub), _seq_unitary(b, width, sub)
-        if L.equal_up_to_phase(Ub, Ua, PHASE_TOL):
-            continue
         cu3 = [o for o in a if _u3_status(o) == "controlled"]
+        if L.equal_up_to_phase(Ub, Ua, PHASE_TOL):
+            if has_lib and cu3:
+                mon.note("controlled-u3:same-action (phi+lambda = 0 mod 4pi)")
+            continue
         if has_lib and cu3 and L.equal_up_to_phase(Ub, _seq_unitary(a, width, sub, k2=True), PHASE_TOL):
             mon.note("K2:controls=" + ",".join(sorted({str(o.gate.num_control_qubits) for o in cu3})))
             mon.violation(
@@ -349,6 +354,8 @@ def _chain_fires(op, rules, idx):
     cur = [op]
     for i, r in enumerate(rules):
         if i == idx:
+            if _is_lib_rule(r):
+                return any(_u3_status(o) in ("plain", "controlled") for o in cur)
             return any(r.rv_matches(o) for o in cur)
         if _is_lib_rule(r):
             if any(_u3_status(o) != "no" for o in cur):
@@ -722,7 +729,7 @@ def run_case(ctx):
 
     if cls in ("u3", "empty"):
         symbolic = cls == "u3" and rng.random() < 0.07
-        nongate = rng.random() < 0.06
+        nongate = rng.random() < 0.08
         circuit, n = rand_circuit(rng, quick, symbolic=symbolic, nongate=nongate,
                                   p_u3=0.45 if cls == "u3" else 0.3)
         rules = [U3GateToRotation()] if cls == "u3" else []
